@@ -82,12 +82,20 @@ func fillSentinel(v reflect.Value, depth int) {
 			p := reflect.New(et)
 			fillSentinel(p.Elem(), depth+1)
 			v.Set(p)
+		} else if et.Kind() == reflect.Struct && foreignOpaque(et) {
+			// a key or certificate object of another package: a fresh object, recognised by identity
+			v.Set(reflect.New(et))
 		}
 	case reflect.Func:
 		if fn, ok := rtFuncs[v.Type()]; ok {
 			v.Set(fn)
 		}
 	}
+}
+
+// foreignOpaque: struct types of other packages that the views carry by pointer (ecdh / mlkem keys).
+func foreignOpaque(t reflect.Type) bool {
+	return t.PkgPath() != "" && t.PkgPath() != reflect.TypeOf(Conn{}).PkgPath() && t != reflect.TypeOf(time.Time{})
 }
 
 // plainData reports whether t contains only data kinds (no interfaces, maps, chans, funcs, mutexes).
@@ -139,6 +147,9 @@ func eqValue(a, b reflect.Value) bool {
 	case reflect.Ptr:
 		if a.IsNil() || b.IsNil() {
 			return a.IsNil() == b.IsNil()
+		}
+		if a.Type().Elem().Kind() == reflect.Struct && foreignOpaque(a.Type().Elem()) {
+			return a.Pointer() == b.Pointer()
 		}
 		return eqValue(a.Elem(), b.Elem())
 	case reflect.Struct:
